@@ -25,6 +25,7 @@ func main() {
 		usage()
 	}
 	cmd := os.Args[1]
+	finalizeProps()
 	fs := flag.NewFlagSet(cmd, flag.ExitOnError)
 	prop := fs.String("p", "", "property id")
 	tier := fs.String("tier", "", "quick|thorough")
